@@ -9,6 +9,7 @@ From NV Require Async.IndexRead.
 From NV Require Async.FastaRecords Async.FastaRecordsSync.
 From NV Require Async.CsiRead.
 From NV Require Async.HeaderReads.
+From NV Require Async.CramHeaderContainer.
 Extraction "model.ml" nv_types_witness async_obs_case sync_obs_case
   async_reader_xcase sync_reader_xcase pack vcomp vuncomp NV.Async.Writer.async_writer_case
   NV.Async.ReadExact.async_bam_case NV.Async.ReadExact.sync_bam_case
@@ -29,4 +30,5 @@ Extraction "model.ml" nv_types_witness async_obs_case sync_obs_case
   NV.Async.FastaRecords.closed_fasta_records_case NV.Async.FastaRecordsSync.sync_fasta_records_run
   NV.Async.CsiRead.async_csi_case NV.Async.CsiRead.sync_csi_case
   NV.Async.CsiRead.async_tbi_case NV.Async.CsiRead.sync_tbi_case
-  NV.Async.HeaderReads.async_header_reads_case.
+  NV.Async.HeaderReads.async_header_reads_case
+  NV.Async.CramHeaderContainer.async_hc_case NV.Async.CramHeaderContainer.sync_hc_case.
